@@ -2,7 +2,7 @@
     retired nameplate / mailbox.  Classification and timing rule (for EVERY
     number of sides and every list of moods); the counting part (one record per
     retirement, none otherwise, the status row) is quoted from UsageCount.v. *)
-From MW Require Import Base Store Monad Usage Server Websocket Service Inv Obs UsageFacts ProtoFacts UsageCount UsageCount2 ActivityFacts Inst_Params.
+From MW Require Import Base Store Monad Usage Server Websocket Service Inv Obs UsageFacts ProtoFacts UsageCount UsageCount2 ActivityFacts Inst_Params RestartUsage.
 
 (** nameplates: crowded (> 2 sides), else pruney, else happy (2 sides), else lonely *)
 Theorem C15_nameplate_result :
@@ -136,6 +136,24 @@ Theorem C15_nameplate_waiting_bounds : ltac:(let t := type of nameplate_waiting_
 Proof. exact nameplate_waiting_bounds. Qed.
 Check C15_nameplate_waiting_bounds.
 Print Assumptions C15_nameplate_waiting_bounds.
+
+
+(** ** retirement by the start-up sweep of a restart (RestartUsage.v): exactly the records a sweep at that
+    instant writes -- one per expired nameplate, one per expired mailbox, all `pruney` -- and a fresh status
+    row (rebooted = now, no connections); nothing when there is no usage database *)
+Theorem C15_restart_usage : ltac:(let t := type of restart_usage in exact t).
+Proof. exact restart_usage. Qed.
+Check C15_restart_usage.
+Print Assumptions C15_restart_usage.
+
+Theorem C15_restart_retires : ltac:(let t := type of restart_retires in exact t).
+Proof. exact restart_retires. Qed.
+Check C15_restart_retires.
+Print Assumptions C15_restart_retires.
+
+Theorem C15_restart_usage_off : ltac:(let t := type of restart_usage_off in exact t).
+Proof. exact restart_usage_off. Qed.
+Print Assumptions C15_restart_usage_off.
 
 
 Example C15_nonvacuous :
